@@ -275,7 +275,7 @@ def check(ctx):
         through = any(n is ucomp[0] or ast.dump(n) == ast.dump(ucomp[0]) for n in ast.walk(e_))
         if through:
             continue
-        guard_ = [t for k, t in facts_at(ut, r_) if "isinstance(" in t and "float" in t]
+        guard_ = [t for k, t in facts_at(ut, r_) if ("isinstance(" in t or "issubclass(" in t) and "float" in t]
         okr_ = bool(guard_)
         ctx.ob("SIB-pred", ut, f"return {norm(r_.value)} bypasses the missing-value filter", r_, okr_,
                f"taken only under {guard_[:1]}" if okr_ else
@@ -510,7 +510,21 @@ def check(ctx):
            clause="replace_na replaces exactly the missing positions")
     dn = repo.fn(f"{VEC}.drop_na")
     rets = [n for n in body_nodes(dn.node) if isinstance(n, ast.Return)]
-    ok = bool(rets) and norm(_expand(dn, rets[0].value, rets[0])).startswith(f"{dn.params[0]}[~{dn.params[0]}.is_na()]")
+    # every exit keeps exactly the non-missing positions: the masked selection, or -- for element types that have no missing
+    # value (judged by the dtype-class dataflow, see NA-blind) -- the whole vector
+    from ..dtclass import analyse as _an10
+    from ..facts import cfg_node_of as _cn10
+    _cfg10, _IN10 = _an10(dn, dn.params[0], init=frozenset("B I U F C SF SV BY DT TD O".split()))
+
+    def _keeps(r_):
+        t_ = norm(_expand(dn, r_.value, r_)) if r_.value is not None else ""
+        if t_.startswith(f"{dn.params[0]}[~{dn.params[0]}.is_na()]"):
+            return True
+        nd_ = _cn10(dn, r_)
+        st_ = _IN10.get(nd_.id) if nd_ is not None else None
+        whole = t_ in (f"{dn.params[0]}.copy()", f"{dn.params[0]}[:].copy()")
+        return bool(st_) and whole and not (set(st_) & {"F", "C", "DT", "TD", "SF", "SV", "O"})
+    ok = bool(rets) and all(_keeps(r_) for r_ in rets)
     ctx.ob("NA-flow", dn, norm(rets[0].value) if rets else "drop_na", rets[0] if rets else dn.node, ok,
            "exactly the non-missing positions are kept" if ok else "drop_na does not keep exactly the non-missing positions",
            clause="drop_na removes exactly the missing positions")
